@@ -22,7 +22,7 @@ from harness import pyast_wire as W
 
 META = {
     "id": "C03",
-    "technique": "Coq proof (soundness of a line-by-line model of _eval_const w.r.t. the reference Python semantics Lang/PySem.v by induction over expressions; closedness of name-free folds; a model of the constant environment with shared list objects across if / while / for, its staleness refuted by computed witnesses, and a simulation theorem - residual program with baked-in constants = source program on every control-flow path - inside a freshness guard, by induction over nested statement blocks) + extracted-model correspondence with the real _eval_const/_expr_has_name/_to_c_expr/parse() + CPython and compiled-firmware oracles",
+    "technique": "Coq proof (soundness of a line-by-line model of _eval_const w.r.t. the reference Python semantics Lang/PySem.v by induction over expressions; closedness of name-free folds; a model of the constant environment with shared list objects across if / while / for, its staleness refuted by computed witnesses, and a simulation theorem - residual program with baked-in constants = source program on every control-flow path - inside a freshness guard, by induction over nested statement blocks; a second simulation for the module-level split between static global initialisers, which run before setup(), and run-time assignments: hoisting is invisible because only closed constant right-hand sides are hoisted, refuted for the variant without the name-free test) + extracted-model correspondence with the real _eval_const/_expr_has_name/_to_c_expr/parse() + CPython and compiled-firmware oracles",
     "level_text": "Theorems C03_* (coq/Props/C03.v) are proved for all expressions / environments about Gallina models of _eval_const, _expr_has_name, _literal_length, the folding call sites and the flow-insensitive constant environment (len(name), flash_pattern(name), lcd.glyph bitmaps; append / remove bookkeeping; dict copies sharing list objects) (operator and cast tables regenerated from parser.py on every run); soundness holds inside an explicit guard and is refuted outside it by computed witnesses that are replayed on the real transpiler (listed findings); the models are run against the real functions on generated expressions, environments and programs, and the property itself (folded value = CPython value; firmware observations = CPython observations) is evaluated on the real artefacts for every generated case inside the guard.",
     "level_note": "Trusted: Coq kernel, the reference semantics Lang/PySem.v (validated against CPython by harness/pysem_check.py), translator harness/gen/safecasts.py, extraction, OCaml driver, the mock Arduino core + g++ as 'device', CPython 3.12 as 'what Python means'. The theorems are about the models; the correspondence bounds their distance from parser.py. Floats are exact rationals in the model: value comparisons are made only where every intermediate float is a binary64 value (measured per case).",
     "design_ref": "DESIGN.md section 4 C03",
@@ -353,7 +353,7 @@ def cmp_site(mo, ro, conv, exact):
 
 
 # ------------------------------------------------------------------ layer B: programs
-INT_N, STR_N, LIST_N, RT_N = ["va", "vb"], ["vs", "vt"], ["vp", "vq"], ["vm", "vr"]
+INT_N, STR_N, LIST_N, RT_N = ["va", "vb", "vc", "vd"], ["vs", "vt", "vu"], ["vp", "vq"], ["vm", "vr"]
 LOOPV = ["vi", "vj", "vk"]
 ALLV = INT_N + STR_N + LIST_N + RT_N + LOOPV
 RT_PINS = {17: 5, 18: 1, 19: 0, 20: 2}
@@ -364,8 +364,8 @@ class ProgGen:
     """env: transpile-time view {name: ('K', value) | ('M',)}; guarded=True keeps every program inside the guard of
     C03_env_fresh_partial (no write to a known name inside a block that may be skipped or repeated, ...)"""
 
-    def __init__(self, rng, guarded, maxdepth):
-        self.rng, self.guarded, self.maxdepth = rng, guarded, maxdepth
+    def __init__(self, rng, guarded, maxdepth, tuples=False):
+        self.rng, self.guarded, self.maxdepth, self.tuples = rng, guarded, maxdepth, tuples
         self.forbid = []
         self.main_bound = None
         self.loop_bound = []
@@ -384,6 +384,10 @@ class ProgGen:
 
     def known(self, env, names):
         return [x for x in names if env.get(x, (None,))[0] == "K"]
+
+    def levels(self, env):
+        """known int names whose value can be a flash-pattern entry (0..255: what analogWrite takes unclamped)"""
+        return [x for x in self.known(env, INT_N) if 0 <= env[x][1] <= 255]
 
     def bound(self, env, names):
         return [x for x in names if x in env]
@@ -425,13 +429,48 @@ class ProgGen:
     def stmt(self, env, depth):
         rng = self.rng
         for _ in range(20):
+            q = rng.random()
+            if q < 0.09:
+                # the run-time value of a variable (mon.write(x) reads the C variable: never folded)
+                xs = self.bound(env, INT_N + STR_N)
+                if xs:
+                    return ("val", rng.choice(xs))
+                continue
+            if q < 0.15:
+                # augmented assignment: the name is forgotten by the constant environment (vars[x] = _ExprStr)
+                xs = [x for x in self.bound(env, INT_N + STR_N) if self.writable(env, x)]
+                if xs:
+                    x = rng.choice(xs)
+                    if x in INT_N:
+                        op = rng.choice(["+", "+", "-"])
+                        ks = self.known(env, INT_N)
+                        e = rng.choice([str(rng.randint(0, 5))] * 2 + ks)
+                    else:
+                        op = "+"
+                        ks = self.known(env, STR_N)
+                        e = rng.choice([repr(rng.choice(STRS))] * 2 + ks)
+                    env[x] = ("M",)
+                    return ("aug", x, op, e)
+                continue
+            if q < 0.19 and depth == 0 and self.tuples and self.main_bound is None:
+                # tuple assignment to declared names (the temporaries path): all right-hand sides are evaluated first
+                xs = [x for x in self.bound(env, INT_N) if self.writable(env, x)]
+                if len(xs) >= 2:
+                    a, b = rng.sample(xs, 2)
+                    es = [b, a] if rng.random() < 0.5 else [self.int_expr(env), self.int_expr(env)]
+                    vs = [self.evalk(env, e) for e in es]
+                    if any(v[0] == "K" and not (0 <= v[1] <= 999) for v in vs):
+                        continue
+                    env[a], env[b] = vs
+                    return ("tuple", [a, b], es)
+                continue
             r = rng.random()
             if r < 0.16:
                 x = rng.choice(INT_N)
                 if self.writable(env, x):
                     e = self.int_expr(env)
                     b = self.evalk(env, e)
-                    if b[0] == "K" and not (0 <= b[1] <= 255):
+                    if b[0] == "K" and not (0 <= b[1] <= 999):
                         continue
                     env[x] = b
                     return ("assign", x, e)
@@ -444,7 +483,7 @@ class ProgGen:
             elif r < 0.38:
                 x = rng.choice(LIST_N)
                 if x not in env and self.writable(env, x):
-                    items = [rng.choice([str(rng.randint(0, 9)), "1", "0"] + self.known(env, INT_N)) for _ in range(rng.randint(0, 4))]
+                    items = [rng.choice([str(rng.randint(0, 9)), "1", "0"] + self.levels(env)) for _ in range(rng.randint(0, 4))]
                     e = "[" + ", ".join(items) + "]"
                     env[x] = self.evalk(env, e)
                     return ("assign", x, e)
@@ -459,7 +498,7 @@ class ProgGen:
                     x = rng.choice(ls)
                     if not self.writable(env, x):
                         continue
-                    choices = [str(rng.randint(0, 9))] * 3 + self.known(env, INT_N)
+                    choices = [str(rng.randint(0, 9))] * 3 + self.levels(env)
                     if not self.guarded:
                         choices += [y for y in self.bound(env, RT_N)]
                     e = rng.choice(choices)
@@ -546,8 +585,10 @@ class ProgGen:
     @staticmethod
     def written(st):
         out = set()
-        if st[0] in ("assign", "append", "remove", "rt"):
+        if st[0] in ("assign", "append", "remove", "rt", "aug"):
             out.add(st[1])
+        elif st[0] == "tuple":
+            out |= set(st[1])
         elif st[0] == "if":
             for x in st[1] + st[2]:
                 out |= ProgGen.written(x)
@@ -567,12 +608,60 @@ class ProgGen:
                     ws = sorted(x for x in self.written(s) if x in env and x in STR_N + LIST_N)
                     if ws:
                         out.append(("len", self.rng.choice(ws)))
+                    ws = sorted(x for x in self.written(s) if x in env and x in INT_N + STR_N)
+                    if ws and self.rng.random() < 0.6:
+                        out.append(("val", self.rng.choice(ws)))
         if not out:
             cands = [x for x in RT_N if (self.main_bound is None or x in self.main_bound) and all(x in b for b in self.loop_bound)]
             x = self.rng.choice(cands or RT_N)
             env.setdefault(x, ("M",))
             out.append(("rt", x, 17))
         return out, env
+
+    def retune(self, env, pre):
+        """module level: a constant is re-assigned, then used in the FIRST assignment of another module-level name
+        (the global-initialiser vs run-time-assignment split: a static initialiser would see the initial value), and
+        the derived name is looked at"""
+        rng = self.rng
+        for names, mk_new, mk_use in (
+                (INT_N, lambda a: rng.choice([str(rng.randint(10, 400)), f"{a} + {rng.randint(1, 150)}", f"{a} * 2"]),
+                 lambda a, b: rng.choice([f"{a} * 2", f"{a} + {b}", f"{a} + 1", f"max({a}, 3)", f"{b} - {a}", f"{a}"])),
+                (STR_N, lambda a: rng.choice([repr(rng.choice(STRS) + "q"), f"{a} + 'z'"]),
+                 lambda a, b: rng.choice([f"{a} + 'x'", f"{a} + {b}", f"{a}", f"f\"n{{{a}}}\""]))):
+            ks = self.known(env, names)
+            free = [x for x in names if x not in env]
+            if not ks or not free or rng.random() < 0.35:
+                continue
+            a, b = rng.choice(ks), rng.choice(ks)
+            if rng.random() < 0.8:
+                e = mk_new(a)
+                v = self.evalk(env, e)
+                if v[0] != "K" or (names is INT_N and not (-999 <= v[1] <= 999)):
+                    continue
+                pre.append(("assign", a, e)); env[a] = v
+            d = rng.choice(free)
+            e = mk_use(a, b) if rng.random() < 0.85 else (str(rng.randint(0, 9)) if names is INT_N else repr(rng.choice(STRS)))
+            v = self.evalk(env, e)
+            if v[0] == "K" and names is INT_N and not (-999 <= v[1] <= 999):
+                continue
+            free2 = [x for x in free if x != d]
+            if self.tuples and free2 and rng.random() < 0.6:
+                d2 = rng.choice(free2)
+                e2 = str(rng.randint(0, 9)) if names is INT_N else repr(rng.choice(STRS))
+                pair = [(d, e, v), (d2, e2, self.evalk(env, e2))]
+                if rng.random() < 0.5:
+                    pair.reverse()
+                pre.append(("tuple", [x for x, _, _ in pair], [y for _, y, _ in pair]))
+                for x, _, w in pair:
+                    env[x] = w
+                pre.append(("val", d2))
+            else:
+                pre.append(("assign", d, e)); env[d] = v
+            pre.append(("val", d))
+            if names is STR_N and rng.random() < 0.5:
+                pre.append(("len", d))
+            if names is INT_N and v[0] == "K" and 0 <= v[1] and rng.random() < 0.3:
+                pre.append(("glyph", [d] + ["0"] * 7))
 
     def program(self, main=False):
         env = {}
@@ -603,6 +692,8 @@ class ProgGen:
                     pre.append(("assign", x, "[" + ", ".join([m] + [str(i) for i in v]) + "]")); env[x] = ("M",)
                 else:
                     pre.append(("assign", x, repr(v))); env[x] = ("K", v)
+        for _ in range(rng.choice([0, 1, 1, 2])):
+            self.retune(env, pre)
         body, _ = self.block(env, 0, rng.randint(3, 8))
         prog = pre + body
         if main:
@@ -634,6 +725,10 @@ def wire_prog(p):
             out.append([3, 1, s[1]])
         elif k == "glyph":
             out.append([3, 2, W.enc_src("[" + ", ".join(s[1]) + "]")])
+        elif k == "val":
+            out.append([3, 3, s[1]])
+        elif k == "aug":
+            out.append([8, W.enc_src(f"{s[1]} {s[2]} ({s[3]})")])
         elif k == "if":
             out.append([5, wire_prog(s[1]), wire_prog(s[2])])
         elif k in ("while", "main"):
@@ -671,6 +766,12 @@ def render_prog(p, sfx, header=True):
                 lines.append(f"{pad}led.flash_pattern({rn(s[1])}, 3)")
             elif k == "glyph":
                 lines.append(f"{pad}lcd.glyph(0, [{', '.join(rn(x) for x in s[1])}])")
+            elif k == "tuple":
+                lines.append(f"{pad}{', '.join(rn(x) for x in s[1])} = {', '.join(rn(x) for x in s[2])}")
+            elif k == "val":
+                lines.append(f"{pad}mon.write({rn(s[1])})")
+            elif k == "aug":
+                lines.append(f"{pad}{rn(s[1])} {s[2]}= {rn(s[3])}")
             elif k == "if":
                 cid[0] += 1
                 c = f"c{cid[0]}_{sfx}"
@@ -806,6 +907,24 @@ WITNESSES = {
 }
 
 
+def has_tuple(p):
+    for s in p:
+        if s[0] == "tuple":
+            return True
+        if s[0] == "if" and (has_tuple(s[1]) or has_tuple(s[2])):
+            return True
+        if s[0] in ("while", "main") and has_tuple(s[1]):
+            return True
+        if s[0] == "for" and has_tuple(s[2]):
+            return True
+    return False
+
+
+def prog_name(x):
+    """is x one of the generated program's variables (rendered with the suffix _0)?"""
+    return x.endswith("_0") and x[:-2] in ALLV
+
+
 def has_main(p):
     return bool(p) and p[-1][0] == "main"
 
@@ -885,6 +1004,11 @@ def layer_b(ctx, stats):
         g = (i % 5) != 4                       # 80 % inside the guard (these feed the oracle), 20 % anything
         progs.append(ProgGen(rng, g, 3 if thorough and i % 3 == 0 else 2).program(main=(i % 4 == 1)))
         guarded.append(g)
+    # tuple assignment (not in the Coq model: no correspondence, only the oracle, on programs the generator keeps
+    # inside the guard by construction)
+    for i in range(n // 5):
+        progs.append(ProgGen(rng, True, 2, tuples=True).program(main=(i % 4 == 1)))
+        guarded.append(True)
     def count(b, depth):
         for st in b:
             stats[f"stmt:{st[0]}@depth{depth}"] += 1
@@ -901,22 +1025,31 @@ def layer_b(ctx, stats):
     progs, guarded, walks = [progs[i] for i in keep], [guarded[i] for i in keep], [walks[i] for i in keep]
     orcs, drs, ars, loops = [w[0] for w in walks], [w[1] for w in walks], [w[2] for w in walks], [w[4] for w in walks]
     real, scripts, n_sk = run_real(progs, drs, ars, batch=10 if thorough else 8, loops=loops)
-    model = ctx.model([[1, wire_prog(p), o] for p, o in zip(progs, orcs)]) if ctx.exe else [None] * len(progs)
+    modelled = [i for i, p in enumerate(progs) if not has_tuple(p)]
+    model = [None] * len(progs)
+    if ctx.exe:
+        for i, m in zip(modelled, ctx.model([[1, wire_prog(progs[i]), orcs[i]] for i in modelled])):
+            model[i] = m
     distinct = set()
     samples = []
     for idx, (p, g, o, r, m, s) in enumerate(zip(progs, guarded, orcs, real, model, scripts)):
         body = s[len(HEADER):]
         case = {"script": s, "dr4": None, "oracle": o}
         stats["prog:" + r["status"].split(":")[0]] += 1
+        if has_tuple(p):
+            stats["prog:tuple-assignment (oracle only)"] += 1
         fresh = g
         if m is not None:
             if m == [2]:
                 ctx.disagree("wire: the model could not decode the program", body, m, None)
                 continue
-            macc, mfresh, mfw, mpy, mstatic = m
-            fresh = g and bool(mfresh)
+            macc, mfresh, mfw, mpy, mstatic, msplit = m
+            msplit_ok, msk, mglobals, mtops = msplit
+            fresh = g and bool(mfresh) and bool(msplit_ok)
             if g and not mfresh:
                 stats["guarded-but-not-fresh"] += 1
+            if mfresh and not msplit_ok:
+                stats["fresh-but-outside-split-guard"] += 1
             # accepted / rejected
             iacc = r["static"]["status"] == "ok"
             if bool(macc) != iacc:
@@ -927,8 +1060,25 @@ def layer_b(ctx, stats):
                                  model_static(mstatic), r["static"]["obs"])
                 else:
                     stats["tie:static-equal"] += 1
+                # module level: which first assignments became static initialisers, which stayed in setup()
+                mg = [[C.wstr(x[0]), x[1]] for x in mglobals]
+                mt = [C.wstr(x) for x in mtops]
+                ig = [x[0][:-2] for x in r["static"].get("globals", []) if prog_name(x[0]) and x[0][:-2] in {n for n, _ in mg}]
+                it = [x[:-2] for x in r["static"].get("tops", []) if prog_name(x[5:] if x.startswith("decl:") else x)]
+                for nm, kind in mg:
+                    stats["global:" + ("static-initialiser" if kind == 0 else "default+runtime-assign")] += 1
+                if [n for n, _ in mg] != ig:
+                    ctx.disagree("module level: globals declared by first assignments differ (model vs IR of the real parser)", body,
+                                 mg, r["static"].get("globals"))
+                elif mt != it:
+                    ctx.disagree("module level: the assignments left in setup() differ - a first assignment is hoisted into a static "
+                                 "initialiser by one side only (model vs IR of the real parser)", body,
+                                 {"globals (0 = static initialiser, 1 = default value)": mg, "top-level assignments": mt},
+                                 {"globals": r["static"].get("globals"), "top-level assignments": it})
+                else:
+                    stats["tie:split-equal"] += 1
                 if r["status"] == "ran":
-                    mp, mf = model_obs(mpy), model_obs(mfw)
+                    mp, mf = model_obs(mpy), model_obs(msk if msplit_ok else mfw)
                     if mp is not None:
                         if mp != r["py"]["obs"]:
                             ctx.disagree("reference run-time semantics of the model differs from CPython", body, mp, r["py"]["obs"])
@@ -946,7 +1096,7 @@ def layer_b(ctx, stats):
             if nobs >= 2:
                 distinct.add(body)
             if r["fw"] != r["py"]["obs"]:
-                ctx.fail("firmware observations (serial lines, flash pattern levels) differ from CPython's on a program inside the guard",
+                ctx.fail("firmware observations (serial lines: folded lengths and run-time values of variables; flash pattern levels; glyph rows) differ from CPython's on a program inside the guard",
                          {"script": s, "digital_read(4)": drs[idx], "analog_read(14)": ars[idx], "main_loop_passes": loops[idx]},
                          r["py"]["obs"], r["fw"], key="stale-fold")
         elif fresh and r["status"] == "nocompile":
@@ -978,13 +1128,15 @@ def run(ctx: C.Ctx):
         "distinct_nontrivial": d_a + d_b,
         "programs": n_b,
         "sketches_compiled": n_sk,
-        "rule": "A: boundary expressions (every node kind _eval_const looks at, each operator with int/float/bool/str operands, error sources, hostile forms) x 3-5 environments (known int/float/bool/str/list/tuple, a marker, an unbound name), then seeded random expressions (harness/pyast_wire.gen_expr, depth 1-4) - each through the extracted model and the real _eval_const/_expr_has_name/_to_c_expr, a sample also through parse() at the blink/backlight/glyph/sleep call sites with the environment set up by assignments; non-trivial (A) = distinct (expression, environment) on which the real evaluator returned a value inside the guard and the CPython comparison ran. B: seeded programs (assign / run-time read / append / remove / len(name) / flash_pattern(name) / lcd.glyph(0, [rows]) under if, while, for and - every fourth program - the sketch's main loop `while True:` run 1-3 passes; 80 % generated inside the guard) with one seeded execution path each (branches taken or not, loops 0-3 times): real parse() IR vs model residual, CPython run vs model reference semantics, firmware run (batched sketches, g++, mock core) vs model firmware outputs; non-trivial (B) = distinct program inside the guard that ran on both sides with >= 2 observations.",
+        "rule": "A: boundary expressions (every node kind _eval_const looks at, each operator with int/float/bool/str operands, error sources, hostile forms) x 3-5 environments (known int/float/bool/str/list/tuple, a marker, an unbound name), then seeded random expressions (harness/pyast_wire.gen_expr, depth 1-4) - each through the extracted model and the real _eval_const/_expr_has_name/_to_c_expr, a sample also through parse() at the blink/backlight/glyph/sleep call sites with the environment set up by assignments; non-trivial (A) = distinct (expression, environment) on which the real evaluator returned a value inside the guard and the CPython comparison ran. B: seeded programs (assign / augmented assign / run-time read / append / remove / len(name) / flash_pattern(name) / lcd.glyph(0, [rows]) / mon.write(name) = the run-time value of a variable; at module level a 'retune' pattern: a constant is re-assigned and then used in the FIRST assignment of another module-level name, which is then printed - the static-initialiser vs run-time-assignment split; a fifth of the programs additionally use tuple assignment, oracle only) under if, while, for and - every fourth program - the sketch's main loop `while True:` run 1-3 passes; 80 % generated inside the guard) with one seeded execution path each (branches taken or not, loops 0-3 times): real parse() IR vs model residual (folded constants; which module-level first assignments became static initialisers and which stayed in setup()), CPython run vs model reference semantics, firmware run (batched sketches, g++, mock core) vs model firmware outputs; non-trivial (B) = distinct program inside the guard that ran on both sides with >= 2 observations.",
         "samples": [{"expr": x} for x in s_a] + [{"program": x} for x in s_b],
         "distribution": dict(sorted(stats.items())),
-        "guard": "A: in_guard (no one-argument max/min; unary plus only on int/float operands - decided by CPython in the oracle), no variable named like a builtin of _SAFE_NAME_REFERENCES. B: is_fresh (ConstEnv.tblock's ghost flag): no assignment / append / remove to a name with a known transpile-time value inside an if / while / for body, remove only of a known value that is present, append only of a known value - outside: findings F-C03-*",
+        "guard": "A: in_guard (no one-argument max/min; unary plus only on int/float operands - decided by CPython in the oracle), no variable named like a builtin of _SAFE_NAME_REFERENCES. B: is_fresh (ConstEnv.tblock's ghost flag): no assignment / append / remove to a name with a known transpile-time value inside an if / while / for body, remove only of a known value that is present, append only of a known value - outside: findings F-C03-*; split_ok = is_fresh and the hoisting side conditions of C03_global_split_partial (always true for generated programs: no for-loop variable is assigned elsewhere)",
         "unmodelled": ["IEEE specials, float results that are not exactly representable are compared only CPython-vs-implementation (exact), not against the rational model",
                        "sensor model names (ast.literal_eval fallback), pin folding in device constructors (same _resolve pattern; only blink/backlight/glyph/sleep sites are run)",
-                       "list aliasing between variables (b = a), tuple assignment, augmented assignment, flash_pattern / glyph with an inline literal containing names (ast.literal_eval path) in the environment model",
+                       "list aliasing between variables (b = a), flash_pattern / glyph with an inline literal containing names (ast.literal_eval path) in the environment model",
+                       "tuple assignment is not in the Coq model: programs using it (module level, all-new or all-declared int / str names) only go through the firmware-vs-CPython oracle",
+                       "try / def bodies (child contexts like if / while / for), elif chains (modelled as an if nested in the else branch, not generated), names promoted out of blocks are not listed among the model's globals",
                        "str(float) / float(str) / complex results: OutOfModel in PySem (skipped, counted)"],
         "trusted_base": C.COMMON_TRUSTED + ["harness/gen/safecasts.py (operator / cast / safe-name tables of parser.py)",
                                             "Lang/PySem.v as the meaning of Python expressions (validated against CPython by harness/pysem_check.py)",
